@@ -82,9 +82,29 @@ def lean_sources():
     return sorted(out)
 
 
-def grep_forbidden():
+def import_closure(module):
+    """project-local modules reachable from `module` (e.g. 'Props.C08') through imports"""
+    seen, todo = set(), [module]
+    while todo:
+        m = todo.pop()
+        if m in seen:
+            continue
+        path = os.path.join(LEAN, *m.split(".")) + ".lean"
+        if not os.path.exists(path):
+            continue
+        seen.add(m)
+        for imp in re.findall(r"^import\s+(\S+)", open(path).read(), flags=re.M):
+            todo.append(imp)
+    return sorted(seen)
+
+
+def grep_forbidden(prop=None):
     hits = []
-    for p in lean_sources():
+    if prop is None:
+        files = lean_sources()
+    else:
+        files = [os.path.join(LEAN, *m.split(".")) + ".lean" for m in import_closure("Props." + prop)]
+    for p in files:
         src = _strip_comments(open(p).read())
         for i, line in enumerate(src.splitlines()):
             if FORBIDDEN.search(line):
@@ -256,7 +276,7 @@ class Ctx:
             broken.append({"obligation": "lake build", "log": self.build_log[-3000:]})
         if self.discharged < self.obligations:
             broken.append({"obligation": "theorems/axiom audit", "details": self.audit_details})
-        forb = grep_forbidden()
+        forb = grep_forbidden(self.prop)
         if forb:
             broken.append({"obligation": "no sorry/axiom/native_decide in lean/", "hits": forb[:10]})
         if self.mismatches:
